@@ -31,7 +31,10 @@ def plan(tier):
 @st.composite
 def cases(draw):
     m = draw(st.integers(2, 12))
-    recipe = draw(gen.problem_recipe(dims=(2, 3, 4, 5), densities=(m,)))
+    if draw(st.integers(0, 4)) == 0:
+        recipe = draw(gen.int_box_recipe(dims=(2, 3, 4, 5), densities=(m,)))     # integer-typed bounds
+    else:
+        recipe = draw(gen.problem_recipe(dims=(2, 3, 4, 5), densities=(m,)))
     iters = st.one_of(st.sampled_from([5, 20, 50, 100]), st.integers(5, 100))
     # eps above and below the cell size 2^-m of the configured grid (the budget bounds the run either way)
     eps = draw(st.one_of(gen.eps_values(recipe["n"], m, cheap=False).map(lambda e: max(e, 2.0 ** (1 - m))),
@@ -70,7 +73,8 @@ def body(case):
     n = len(run.problem.log)
     return (m != 10 and n >= 5), ["m=%d" % m, "N=%d" % recipe["n"], "drive=" + case["drive"],
                                   "density-as=" + recipe.get("density_type", "int"),
-                                  "startPoint" if case["params"].get("startPoint") else "no-startPoint"]
+                                  "startPoint" if case["params"].get("startPoint") else "no-startPoint",
+                                  "int-typed-bounds" if (recipe.get("style") or {}).get("bounds") else "float-bounds"]
 
 
 def generated(ctx):
